@@ -230,7 +230,7 @@ theorem shift_foldEdges (hs : Stable Q) (L : List Nat) (hd : Shift.Desc L) : ∀
 theorem shift_cellsStage (hs : Stable Q) {k : Kernel} (hi : Shift.ImmInv k) (fs : List Nat) (hq : Q k) :
     Q ((k.incidentCells fs).reverse.foldl deleteCellCore k) :=
   shift_foldCells hs _ (Shift.desc_incidentCells k fs) k hi
-    (fun x hx => Shift.incidentCells_lt hi.wf (List.mem_reverse.mp hx)) hq
+    (fun _ hx => Shift.incidentCells_lt hi.wf (List.mem_reverse.mp hx)) hq
 
 theorem shift_facesStage (hs : Stable Q) {k : Kernel} (hi : Shift.ImmInv k) (es : List Nat) (hq : Q k) :
     Q ((k.incidentFaces es).reverse.foldl deleteFaceCore
